@@ -315,6 +315,26 @@ def fingerprint(ex):
         "to_delete": fp(getattr(ex, "addresses_to_delete", None)), "call_sequence": len(ex.call_sequence or []),
     }
     shared = {"known_keys": fp(ex.known_keys), "known_sigs": fp(ex.known_sigs)}
+    # what the return callback of a sub-execution captured from its caller: the per-CALL / per-CREATE backups `orig_*` (restored
+    # from on every failing callee path) and the caller's context / stack / memory / jumpis (restored on every return)
+    cur, depth = ex, 0
+    while cur is not None and getattr(cur, "callback", None) is not None and depth < 4:
+        cb = cur.callback
+        cells = dict(zip(getattr(cb.__code__, "co_freevars", ()), cb.__closure__ or ()))
+        parent = None
+        for name, cell in cells.items():
+            try:
+                v = cell.cell_contents
+            except ValueError:
+                continue
+            if name.startswith("orig_"):
+                own[f"captured{depth}:{name}"] = fp(v)
+            elif name == "ex":
+                parent = v
+                own[f"captured{depth}:caller.context"] = fp(v.context)
+                own[f"captured{depth}:caller.st"] = (fp(v.st.stack), fp(v.st.memory))
+                own[f"captured{depth}:caller.jumpis"] = fp(v.jumpis)
+        cur, depth = parent, depth + 1
     return own, shared
 
 
@@ -363,6 +383,31 @@ def check_siblings(ctx, n):
     }
     for nm, src in directed.items():
         scns.insert(0, Scenario({MAIN: A.assemble_text(src)}, nargs=2, name=nm))
+    # directed family: a callee (or init code) with >= 2 feasible FAILING paths, a caller that survives the failure and then does
+    # a read-modify-write of storage and of transient storage: every path must end with both counters == 1
+    bump = ("PUSH0 SLOAD PUSH1 0x01 ADD PUSH0 SSTORE PUSH1 0x01 TLOAD PUSH1 0x01 ADD PUSH1 0x01 TSTORE "
+            "PUSH0 SLOAD PUSH0 MSTORE PUSH1 0x01 TLOAD PUSH1 0x20 MSTORE PUSH1 0x40 PUSH0 RETURN")
+    callee2 = "PUSH0 CALLDATALOAD PUSH @a JUMPI PUSH0 PUSH0 REVERT a: PUSH1 0x01 PUSH0 MSTORE PUSH1 0x20 PUSH0 REVERT"
+    callee3 = ("PUSH0 CALLDATALOAD PUSH @a JUMPI PUSH0 PUSH0 REVERT a: PUSH1 0x20 CALLDATALOAD PUSH @b JUMPI INVALID "
+               "b: PUSH1 0x09 PUSH1 0x05 SSTORE PUSH1 0x20 PUSH0 REVERT")
+    args = "PUSH1 0x04 CALLDATALOAD PUSH0 MSTORE PUSH1 0x24 CALLDATALOAD PUSH1 0x20 MSTORE "
+    for op in ("CALL", "DELEGATECALL", "STATICCALL", "CALLCODE"):
+        val = "PUSH0 " if op in ("CALL", "CALLCODE") else ""
+        for cn, callee in (("2", callee2), ("3", callee3)):
+            caller = args + f"PUSH0 PUSH0 PUSH1 0x40 PUSH0 {val}PUSH2 0x2000 PUSH2 0xffff {op} POP " + bump
+            scns.insert(0, Scenario({MAIN: A.assemble_text(caller), 0x2000: A.assemble_text(callee)}, nargs=2,
+                                    name=f"failing-callee:{op}:{cn}-paths"))
+    # the same after a first write (the backup then holds a non-empty storage object) and with two calls in a row
+    caller = ("PUSH1 0x07 PUSH1 0x03 SSTORE " + args + "PUSH0 PUSH0 PUSH1 0x40 PUSH0 PUSH0 PUSH2 0x2000 PUSH2 0xffff CALL POP "
+              "PUSH0 SLOAD PUSH1 0x01 ADD PUSH0 SSTORE PUSH0 PUSH0 PUSH1 0x40 PUSH0 PUSH0 PUSH2 0x2000 PUSH2 0xffff CALL POP "
+              "PUSH1 0x01 TLOAD PUSH1 0x01 ADD PUSH1 0x01 TSTORE PUSH0 SLOAD PUSH0 MSTORE PUSH1 0x01 TLOAD PUSH1 0x20 MSTORE "
+              "PUSH1 0x40 PUSH0 RETURN")
+    scns.insert(0, Scenario({MAIN: A.assemble_text(caller), 0x2000: A.assemble_text(callee2)}, nargs=2,
+                            name="failing-callee:CALL-twice"))
+    # CREATE whose init code fails on two paths (branching on the symbolic tx.origin)
+    init = A.assemble_text("ORIGIN PUSH1 0x01 AND PUSH @a JUMPI PUSH0 PUSH0 REVERT a: INVALID")
+    caller = (f"PUSH{len(init)} 0x{init.hex()} PUSH0 MSTORE PUSH1 {len(init)} PUSH1 {32 - len(init)} PUSH0 CREATE POP " + bump)
+    scns.insert(0, Scenario({MAIN: A.assemble_text(caller)}, nargs=1, name="failing-callee:CREATE:2-paths"))
     total_wait = 0
     for k, scn in enumerate(scns):
         hits = []
@@ -376,6 +421,20 @@ def check_siblings(ctx, n):
         ctx.count("sibling:programs")
         ctx.count("sibling:waiting-states-checked", len(hits))
         ctx.count("sibling:paths", len(sr.paths))
+        if (scn.name or "").startswith("failing-callee"):
+            ctx.count("sibling:directed-failing-callee-paths", len(sr.paths))
+            if len(sr.paths) < 2 or sr.escaped:
+                raise RuntimeError(f"directed program {scn.name}: {len(sr.paths)} paths, escaped={sr.escaped}")
+            one = (1).to_bytes(32, "big") * 2
+            for pth in sr.paths:
+                data = pth.data.unwrap() if pth.data is not None and len(pth.data) else b""
+                if pth.kind != "success" or not isinstance(data, bytes) or data != one:
+                    ctx.violation(
+                        f"sibling-write-visible-after-failed-call|{scn.name.split(':')[1]}",
+                        f"program {scn.name}: a path ends with (counter, transient counter) = {data.hex() if isinstance(data, bytes) else data} "
+                        f"(kind {pth.kind}); each caller continuation after a failed callee path must start from the pre-call "
+                        f"state, i.e. end with (1, 1)", {"kind": "sibling", "code": {hex(a): c.hex() for a, c in scn.contracts.items()},
+                                                           "nargs": scn.nargs, "static": scn.static})
         total_wait += sum(1 for h in hits if h[2] > 0)
         for own_diff, shared_diff, _d in hits:
             if own_diff:
